@@ -772,6 +772,7 @@ package raft
 //@   requires l.file != nil ==> forall j int :: 0 <= j && j < len(entries) ==> entries[j].Index == absLast(l) + 1 + j
 //@   requires l.file != nil ==> absLast(l) + len(entries) <= 18446744073709551615
 //@   ensures [ri] err == nil ==> logRI(l)
+//@   ensures [refines] err == nil ==> absLast(l) == old(absLast(l)) + len(entries) && absFirst(l) == old(absFirst(l))
 //@   ensures [closed] old(l.file) == nil ==> err != nil && l.entries == old(l.entries)
 //@   ensures [appended] err == nil ==> len(l.entries) == old(len(l.entries)) + len(entries) && (forall k int :: 0 <= k && k < old(len(l.entries)) ==> l.entries[k] == old(l.entries[k])) && (forall j int :: 0 <= j && j < len(entries) ==> l.entries[old(len(l.entries)) + j] == entries[j])
 //@   ensures [error-frame] err != nil ==> l.entries == old(l.entries)
@@ -787,6 +788,7 @@ package raft
 //@   ensures [missing] old(l.file) != nil && !old(absContains(l, index)) ==> err != nil
 //@   ensures [error-frame] err != nil ==> l.entries == old(l.entries)
 //@   ensures [ri] err == nil ==> logRI(l)
+//@   ensures [refines] err == nil ==> absLast(l) == index - 1 && absFirst(l) == old(absFirst(l))
 //@   at call l.file.Truncate assert [truncate-at-record] arg0 == l.entries[index - absFirst(l)].Offset
 //@   at before-assign l.entries assert [sync-before-publish] fSynced[l.file] && fPos[l.file] == l.entries[index - absFirst(l)].Offset
 
@@ -796,6 +798,7 @@ package raft
 //@   ensures [missing] old(l.file) != nil && !old(absContains(l, index)) ==> err != nil
 //@   ensures [error-frame] err != nil ==> l.entries == old(l.entries)
 //@   ensures [ri] err == nil ==> logRI(l)
+//@   ensures [refines] err == nil ==> absFirst(l) == index && absLast(l) == old(absLast(l))
 //@   at call encodeLogEntry assert [offset-current] arg1.Offset == fPos[tmpFile] && arg0 == tmpFile
 //@   loop range newEntries invariant [tmp] tmpFile != nil
 
@@ -803,6 +806,7 @@ package raft
 //@   ensures [spec] err == nil ==> len(l.entries) == 1 && l.entries[0] != nil && l.entries[0].Index == index && l.entries[0].Term == term && l.entries[0].Offset == 0
 //@   ensures [error-frame] err != nil ==> l.entries == old(l.entries)
 //@   ensures [ri] err == nil ==> logRI(l)
+//@   ensures [refines] err == nil ==> absFirst(l) == index && absLast(l) == index
 //@   at call encodeLogEntry assert [offset-current] arg1.Offset == fPos[tmpFile] && arg0 == tmpFile
 
 //@ func persistentLog.rename
